@@ -71,10 +71,12 @@ namespace pika::detail {
             if (!try_recursive_lock(ctx))
             {
                 mtx.lock();
+                PIKA_VERIF_POINT("rmtx.got", this, 0, 0);
                 locking_context.exchange(ctx);
                 pika::util::ignore_lock(&mtx);
                 pika::util::register_lock(this);
                 recursion_count.store(1);
+                PIKA_VERIF_POST("rmtx.own", this, 1, 0);
             }
         }
 
@@ -87,11 +89,15 @@ namespace pika::detail {
         {
             if (0 == --recursion_count)
             {
+                PIKA_VERIF_POST("rmtx.zero", this, 0, 0);
+                PIKA_VERIF_POINT("rmtx.clr", this, 0, 0);
                 locking_context.exchange(pika::execution::detail::agent_ref());
                 pika::util::unregister_lock(this);
                 pika::util::reset_ignored(&mtx);
+                PIKA_VERIF_POST("rmtx.free", this, 0, 0);
                 mtx.unlock();
             }
+            else { PIKA_VERIF_POST("rmtx.dec", this, recursion_count.load(), 0); }
         }
 
     private:
@@ -100,6 +106,7 @@ namespace pika::detail {
             if (locking_context.load(std::memory_order_acquire) == current_context)
             {
                 if (++recursion_count == 1) pika::util::register_lock(this);
+                PIKA_VERIF_POST("rmtx.rec", this, recursion_count.load(), 0);
                 return true;
             }
             return false;
@@ -109,10 +116,12 @@ namespace pika::detail {
         {
             if (mtx.try_lock())
             {
+                PIKA_VERIF_POINT("rmtx.got", this, 1, 0);
                 locking_context.exchange(current_context);
                 pika::util::ignore_lock(&mtx);
                 pika::util::register_lock(this);
                 recursion_count.store(1);
+                PIKA_VERIF_POST("rmtx.own", this, 2, 0);
                 return true;
             }
             return false;
